@@ -124,7 +124,8 @@ def make_persona(year, seed, archetype=None):
         over[f'w-2:{n}.belongs_to'] = who
         over[f'w-2:{n}.box_15'] = 'NC'
         if rng.chance(0.4):
-            over[f'w-2:{n}.box_12a_code'] = rng.pick(['D', 'DD', 'AA', 'W'])
+            # (II - Medicaid waiver payments - is a box 12 code from tax year 2023 on)
+            over[f'w-2:{n}.box_12a_code'] = rng.pick(['D', 'DD', 'AA', 'W'] + (['II', 'II'] if year >= 2023 else []))
             over[f'w-2:{n}.box_12a_value'] = str(rng.pick([500, 1500.5]))
 
     if arch == 'minimal':
